@@ -33,8 +33,8 @@ type stObs struct {
 }
 
 // stCall runs the real API on a concrete document.
-func stCall(trust, entry string, doc []byte) stObs {
-	s := stNewSP(trust)
+func stCall(cfg *stTrustCfg, cv stCfgVariant, entry string, doc []byte) stObs {
+	s := stNewSP(cfg, cv)
 	var o stObs
 	p, msg := safely(func() {
 		var a *saml.Assertion
@@ -86,6 +86,8 @@ type stCase struct {
 	Key      string              `json:"case"`
 	Entry    string              `json:"entry"`
 	Trust    string              `json:"trust"`
+	Cfg      *stTrustCfg         `json:"cfg"`
+	CfgVar   stCfgVariant        `json:"cfgVariant"`
 	GKey     string              `json:"gkey"`
 	Layout   string              `json:"layout"`
 	Class    string              `json:"class"`
@@ -102,7 +104,7 @@ type stCase struct {
 func stOracle(c *stCase, o stObs) (bool, string) {
 	if o.Accepted {
 		by := []string{}
-		for _, r := range stSigningRoots(c.Trust) {
+		for _, r := range stSigningRoots(c.Cfg) {
 			for _, k := range c.Ledger[o.Identity] {
 				if k == r {
 					by = append(by, r)
@@ -111,7 +113,7 @@ func stOracle(c *stCase, o stObs) (bool, string) {
 		}
 		if len(by) == 0 {
 			who := c.Ledger[o.Identity]
-			return true, fmt.Sprintf("returned assertion (NameID %q, ID %s) whose identity-bearing content was signed by no configured signing certificate of trust configuration %s (harness signed that content with: %v)", o.NameID, o.RetID, c.Trust, who)
+			return true, fmt.Sprintf("returned assertion (NameID %q, ID %s) whose identity-bearing content was signed by no certificate that trust configuration %s names as trusted (trusted: %v; the harness signed that content with: %v)", o.NameID, o.RetID, c.Trust, stSigningRoots(c.Cfg), who)
 		}
 		if c.Class == "MustReject" {
 			return true, "accepted a message in which no assertion is covered by a trusted signature"
@@ -153,34 +155,50 @@ func stEntries(art string, h byte, all bool) []string {
 func TestC01(t *testing.T) {
 	rep := NewReport("C01")
 	defer rep.Finish(t)
-	rep.Rule = "every document emitted by spec/SigTree.tla (final abstract tree of a base IdP message after <= K attacker productions) is built concretely from the tree (genuine nodes and signatures copied from a message the harness signed with goxmldsig, forged nodes with another identity, attacker signatures made with the attacker's / the encryption-only key bottom-up, optional encryption to the SP certificate, seed-chosen comment / white-space / prefix variants) and run through ParseXMLResponse, ParseResponse (POST) or ParseXMLArtifactResponse under every trust configuration of the tier; the verdict is compared with the model's, and the returned assertion's identity-bearing content with the ledger of what the harness signed; non-trivial = MustAccept or MustReject by the statement"
+	rep.Rule = "every document emitted by spec/SigTree.tla (final abstract tree of a base IdP message after <= K attacker productions) is built concretely from the tree (genuine nodes and signatures copied from a message the harness signed with goxmldsig, forged nodes with another identity, attacker signatures made with the attacker's / the encryption-only key bottom-up, KeyInfo naming the signer's, any other known or no certificate, optional encryption to the SP certificate, seed-chosen comment / white-space / prefix variants) and run through ParseXMLResponse, ParseResponse (POST) or ParseXMLArtifactResponse on a ServiceProvider configured as the run's TRUST CONFIGURATION says (the table of configurations is emitted by the specification: key descriptors of the IdP metadata with use / EncryptionMethod / several certificates / several role descriptors / unparsable certificates, pinned IDPCertificate, IDPCertificateFingerprint + algorithm, each crossed with what the metadata lists at the same time; seed-chosen line-wrapped certificates and metadata passed through XML); the verdict is compared with the model's, and the returned assertion's identity-bearing content with the ledger of what the harness signed: it must have been signed with a key in TrustedKeys(configuration) as the statement defines it (pinned => only the pinned certificate, fingerprint => only a certificate with that fingerprint, else the signing-use certificates of the metadata); non-trivial = MustAccept or MustReject by the statement"
 	oldNow := saml.TimeNow
 	defer func() { saml.TimeNow = oldNow }()
 	now := c02Now.Add(time.Duration(seedVal()%1000) * time.Hour)
 	saml.TimeNow = func() time.Time { return now }
 	bases := &stBases{now: now, m: map[string]*stBase{}}
 
-	files := []string{"vectors.ndjson"}
+	cfgs := stLoadTrustCfgs(rep)
+	if rep.Broken != "" {
+		return
+	}
+	// vector files: the attack exploration under a few trust configurations, and the trust configurations
+	// (every one of them x the IdP's signing key) under one attacker step / two steps of the key family
+	fams := []stFamily{{file: "vectors.ndjson", name: "tree"}, {file: "vectors_tc.ndjson", name: "trustcfg", allRunsUpTo: 0, share: 6}}
 	if thorough() {
-		files = append(files, "vectors3.ndjson", "vectorsim.ndjson")
+		fams = []stFamily{{file: "vectors.ndjson", name: "tree", allRunsUpTo: 1, share: 3}, {file: "vectors3.ndjson", name: "tree", allRunsUpTo: 1, share: 3},
+			{file: "vectorsim.ndjson", name: "tree", allRunsUpTo: 1, share: 3},
+			{file: "vectors_tc.ndjson", name: "trustcfg", allRunsUpTo: 0, share: 3}, {file: "vectors_tc2.ndjson", name: "trustcfg", allRunsUpTo: 0, share: 4}}
 	}
 	seen := map[string]bool{}
 	var vecs []*stVec
 	perFile := map[string]int{}
-	for _, f := range files {
-		for _, l := range loadLines(t, f) {
+	for fi := range fams {
+		f := &fams[fi]
+		for _, l := range loadLines(t, f.file) {
 			v := &stVec{}
 			if err := json.Unmarshal(l, v); err != nil {
-				rep.Break("bad vector in %s: %v", f, err)
+				rep.Break("bad vector in %s: %v", f.file, err)
 				return
 			}
-			h := v.treeHash()
+			h := f.name + v.treeHash()
 			if seen[h] {
 				continue
 			}
 			seen[h] = true
+			v.fam = f
+			for _, run := range v.Runs {
+				if cfgs[run.T] == nil {
+					rep.Break("vector in %s uses trust configuration %q that no TCFG line defines", f.file, run.T)
+					return
+				}
+			}
 			vecs = append(vecs, v)
-			perFile[f]++
+			perFile[f.file]++
 		}
 	}
 	if len(vecs) == 0 {
@@ -192,6 +210,27 @@ func TestC01(t *testing.T) {
 	var mu sync.Mutex
 	stats := map[string]int{}
 	bump := func(k string) { mu.Lock(); stats[k]++; mu.Unlock() }
+	perCfg := map[string]map[string]int{}
+	bumpCfg := func(c *stCase, o stObs) {
+		mu.Lock()
+		defer mu.Unlock()
+		m := perCfg[c.Trust]
+		if m == nil {
+			m = map[string]int{}
+			perCfg[c.Trust] = m
+		}
+		m[c.Class]++
+		if o.Accepted {
+			m["accepted"]++
+		} else {
+			m["rejected"]++
+		}
+		kind := stCfgKind(c.Cfg)
+		stats["trustkind_"+kind+"_"+c.Class]++
+		if c.Class == "MustReject" && c.Cfg.Pin != "-" && c.GKey != stKeyNameOr(c.Cfg.Pin) && stListedForSigning(c.Cfg, c.GKey) && c.Family == "trustcfg" {
+			stats["pinned_but_signed_by_a_key_the_metadata_lists"]++
+		}
+	}
 	sampleEvery := len(vecs)/5 + 1
 
 	parallel(len(vecs), func(i int) {
@@ -199,33 +238,32 @@ func TestC01(t *testing.T) {
 		th := v.treeHash()
 		hb := []byte(th)[0]
 		// quick tier: a sampled share of the artifact-delivered documents
-		if !thorough() && v.B.Art != "none" && v.N == 2 && hb%3 != 0 {
+		if !thorough() && v.fam.name == "tree" && v.B.Art != "none" && v.N == 2 && hb%3 != 0 {
 			bump("skipped_artifact_quick")
 			return
 		}
-		rng := newRand("c01/" + th)
+		rng := newRand("c01/" + v.fam.name + th)
 		reps := 1
 		if v.N == 0 {
 			reps = 3 // pristine, then two with concrete variants
 		}
 		for rr := 0; rr < reps; rr++ {
 			var vr stVariants
+			var cv stCfgVariant
 			if v.N > 0 || rr > 0 {
 				vr = stPickVariants(rng)
+				cv = stPickCfgVariant(rng)
 			}
 			docs := map[string][]byte{}
 			rends := map[string]*stRender{}
 			for ri, run := range v.Runs {
-				trusts := []string{run.T}
-				if run.T == "T1" && thorough() {
-					trusts = append(trusts, "PIN") // same signing roots in the model
-				}
-				// thorough tier: documents with <= 1 attacker step run under every configuration; deeper ones under
-				// two of the six model configurations (rotating with the document hash, so every configuration
-				// sees a third of them)
-				if thorough() && v.N >= 2 && (int(hb)+ri)%3 != 0 {
+				// documents with few attacker steps run under every configuration of their file; deeper ones
+				// under a share of them (rotating with the document hash, so that every configuration sees that
+				// share of the documents)
+				if v.N > v.fam.allRunsUpTo && v.fam.share > 1 && (int(hb)+ri)%v.fam.share != 0 {
 					continue
 				}
+				cfg := cfgs[run.T]
 				g := stKeyName(run.G)
 				b := bases.get(v.B, g)
 				if docs[g] == nil {
@@ -237,22 +275,18 @@ func TestC01(t *testing.T) {
 						return
 					}
 				}
-				for _, trust := range trusts {
-					if trust == "PIN" && (int(hb)+rr)%2 != 0 && v.N >= 2 {
-						continue
+				for _, entry := range stEntries(v.B.Art, hb+byte(ri), thorough() && v.N <= 1 && (v.fam.name == "tree" || v.N == 0)) {
+					c := &stCase{Key: th, Entry: entry, Trust: run.T, Cfg: cfg, CfgVar: cv, GKey: g, Layout: v.B.String(), Class: run.Cls, Pred: run.V,
+						Doc: docs[g], Ledger: b.ledger.flat(), Now: now.Format(time.RFC3339Nano), Variants: vr, Tree: v.T, Family: v.fam.name}
+					if (vr.any() || cv.any()) && c.Class == "MustAccept" {
+						c.Class = "DontCare" // the statement demands acceptance of the message as sent, under the configuration as modelled, only
 					}
-					for _, entry := range stEntries(v.B.Art, hb+byte(ri), thorough() && v.N <= 1) {
-						c := &stCase{Key: th, Entry: entry, Trust: trust, GKey: g, Layout: v.B.String(), Class: run.Cls, Pred: run.V,
-							Doc: docs[g], Ledger: b.ledger.flat(), Now: now.Format(time.RFC3339Nano), Variants: vr, Tree: v.T, Family: "tree"}
-						if vr.any() && c.Class == "MustAccept" {
-							c.Class = "DontCare" // the statement demands acceptance of the message as sent only
-						}
-						o := stCall(trust, entry, c.Doc)
-						stJudge(rep, c, o, bump)
-						if i%sampleEvery == 0 && ri == 0 && rr == 0 {
-							rep.Sample(map[string]any{"base": v.B, "steps": v.N, "tree": v.T, "trust": trust, "gkey": g, "entry": entry,
-								"class": c.Class, "predicted": run.V, "predicted_step": run.Step, "real_accepted": o.Accepted, "real_err": o.Err, "bytes": len(c.Doc)})
-						}
+					o := stCall(cfg, cv, entry, c.Doc)
+					stJudge(rep, c, o, bump)
+					bumpCfg(c, o)
+					if i%sampleEvery == 0 && ri == 0 && rr == 0 {
+						rep.Sample(map[string]any{"base": v.B, "steps": v.N, "tree": v.T, "trust": run.T, "trusted_keys": cfg.Trusted, "gkey": g, "entry": entry,
+							"class": c.Class, "predicted": run.V, "predicted_step": run.Step, "real_accepted": o.Accepted, "real_err": o.Err, "bytes": len(c.Doc)})
 					}
 				}
 			}
@@ -266,8 +300,23 @@ func TestC01(t *testing.T) {
 			}
 		}
 	})
+	mu.Lock()
+	rep.Extra["c01_trust_configurations"] = perCfg
+	for _, kind := range []string{"metadata", "pinned", "fingerprint"} {
+		if stats["trustkind_"+kind+"_MustAccept"] == 0 || stats["trustkind_"+kind+"_MustReject"] == 0 {
+			rep.Break("vacuous: no MustAccept or no MustReject case under a %s trust configuration", kind)
+		}
+	}
+	if stats["pinned_but_signed_by_a_key_the_metadata_lists"] == 0 {
+		rep.Break("vacuous: no message signed by a key that the metadata lists while another certificate is pinned")
+	}
+	mu.Unlock()
 
-	stExtraFamilies(rep, bases, bump)
+	if cfgs["T1"] == nil || cfgs["T2"] == nil {
+		rep.Break("trust configurations T1 / T2 are not defined by any TCFG line")
+		return
+	}
+	stExtraFamilies(rep, bases, cfgs, bump)
 
 	mu.Lock()
 	rep.Extra["c01_stats"] = stats
@@ -278,6 +327,47 @@ func TestC01(t *testing.T) {
 	if stats["accepted_with_ledger_content"] == 0 {
 		rep.Break("vacuous: the real code accepted nothing")
 	}
+}
+
+// stFamily: one vector file and how its documents are spread over the run configurations it lists
+type stFamily struct {
+	file        string
+	name        string // "tree": attack exploration; "trustcfg": the trust-configuration dimension
+	allRunsUpTo int    // documents with at most this many attacker steps run under every configuration
+	share       int    // deeper ones under 1/share of them
+}
+
+func stCfgKind(c *stTrustCfg) string {
+	switch {
+	case c.Pin != "-" && c.Fp == "-" && c.Alg == "-":
+		return "pinned"
+	case c.Pin == "-" && c.Fp != "-":
+		return "fingerprint"
+	case c.Pin == "-" && c.Fp == "-" && c.Alg == "-":
+		return "metadata"
+	}
+	return "mixed"
+}
+
+func stKeyNameOr(model string) string {
+	if stIsCert(model) {
+		return stKeyName(model)
+	}
+	return model
+}
+
+// stListedForSigning: the metadata of the configuration lists that key in a signing-use descriptor
+func stListedForSigning(c *stTrustCfg, gkey string) bool {
+	for _, kd := range c.Md {
+		if kd.Use == "signing" || kd.Use == "" {
+			for _, x := range kd.Certs {
+				if stIsCert(x) && stKeyName(x) == gkey {
+					return true
+				}
+			}
+		}
+	}
+	return false
 }
 
 // stJudge applies the oracle, the classes and the drift comparison to one observation.
@@ -385,7 +475,7 @@ func stEtreeParses(b []byte) bool {
 // stExtraFamilies: round-trip-unstable tokens at top level and inside re-encrypted plaintexts (the real
 // xml-roundtrip-validator is the instrument that classifies them), and prefix re-binding used by an
 // inert element elsewhere in the document.
-func stExtraFamilies(rep *Report, bases *stBases, bump func(string)) {
+func stExtraFamilies(rep *Report, bases *stBases, cfgs map[string]*stTrustCfg, bump func(string)) {
 	now := bases.now
 	spec := stBaseSpec{SigA: true, Art: "none"} // Response unsigned, Assertion signed: the token can sit outside every digest
 	b := bases.get(spec, "idp1")
@@ -412,9 +502,9 @@ func stExtraFamilies(rep *Report, bases *stBases, bump func(string)) {
 			cls = "MustReject"
 		}
 		for _, trust := range []string{"T1", "T2"} {
-			c := &stCase{Key: hashKey(family + name + where), Entry: "xml", Trust: trust, GKey: "idp1", Layout: spec.String() + "+" + family + ":" + name + ":" + where,
+			c := &stCase{Key: hashKey(family + name + where), Entry: "xml", Trust: trust, Cfg: cfgs[trust], GKey: "idp1", Layout: spec.String() + "+" + family + ":" + name + ":" + where,
 				Class: cls, Pred: "", Doc: top, Ledger: b.ledger.flat(), Now: now.Format(time.RFC3339Nano), Family: family}
-			o := stCall(trust, "xml", top)
+			o := stCall(cfgs[trust], stCfgVariant{}, "xml", top)
 			if o.Accepted {
 				bump(family + "_accepted")
 			} else {
@@ -480,10 +570,10 @@ func stExtraFamilies(rep *Report, bases *stBases, bump func(string)) {
 				d := docBytes(root)
 				cls := "DontCare"
 				for _, trust := range []string{"T1", "T2"} {
-					c := &stCase{Key: hashKey("rebind" + layout.String() + pfx + pos), Entry: "xml", Trust: trust, GKey: "idp1",
+					c := &stCase{Key: hashKey("rebind" + layout.String() + pfx + pos), Entry: "xml", Trust: trust, Cfg: cfgs[trust], GKey: "idp1",
 						Layout: layout.String() + "+rebind:" + pfx + ":" + pos, Class: cls, Pred: "", Doc: d, Ledger: bb.ledger.flat(),
 						Now: now.Format(time.RFC3339Nano), Family: "prefix-rebind"}
-					o := stCall(trust, "xml", d)
+					o := stCall(cfgs[trust], stCfgVariant{}, "xml", d)
 					if o.Accepted {
 						bump("prefix-rebind_accepted")
 					} else {
@@ -507,7 +597,10 @@ func init() {
 		}
 		now, _ := time.Parse(time.RFC3339Nano, c.Now)
 		saml.TimeNow = func() time.Time { return now }
-		o := stCall(c.Trust, c.Entry, c.Doc)
+		if c.Cfg == nil {
+			t.Fatal("replay file without trust configuration")
+		}
+		o := stCall(c.Cfg, c.CfgVar, c.Entry, c.Doc)
 		bad, clause := stOracle(&c, o)
 		if !bad && c.Class == "MustReject" && o.Accepted {
 			bad, clause = true, "accepted a MustReject document"
